@@ -300,16 +300,36 @@ Proof. exact fr_cds_survivors. Qed.
 Print Assumptions C13_filter_results_survivors.
 
 (* ... a hit is removed iff it belongs to a group whose best is another hit (so hits outside every
-   group stay, and exactly the best of a group survives that group) ... *)
+   group stay, and exactly the best of a group survives that group); the best hit of a group is searched in the
+   order of the gene's hit list (hit_order: `[hit for hit in cdsresults if hit in group]`, repair of
+   filter_results_score_tie_set_order) ... *)
 Theorem C13_filter_results_removed_iff : forall mine r, fwf mine = true -> In r mine ->
-  (fr_keep mine r = false <-> exists g b, In g (fr_groups mine) /\ In r g /\ best_of g = Some b /\ b <> r).
+  (fr_keep mine r = false <-> exists g b, In g (fr_groups mine) /\ In r g /\ best_of (hit_order mine g) = Some b /\ b <> r).
 Proof. exact C13_filter_keep_iff. Qed.
 Print Assumptions C13_filter_results_removed_iff.
 
-(* ... best_of picks a member with the highest score ... *)
-Theorem C13_filter_results_best_of : forall g b, best_of g = Some b -> In b g /\ forall x, In x g -> f_sc x <= f_sc b.
-Proof. exact fr_best_of_spec. Qed.
+(* ... best_of picks a member of the group with the highest score, and there always is one (`ordered[0]` does not
+   raise) ... *)
+Theorem C13_filter_results_best_of : forall mine g, fwf mine = true -> In g (fr_groups mine) ->
+  exists b, best_of (hit_order mine g) = Some b /\ In b g /\ forall x, In x g -> f_sc x <= f_sc b.
+Proof. exact C13_filter_best_of_proof. Qed.
 Print Assumptions C13_filter_results_best_of.
+
+(* ... namely, when several hits tie on the highest score, the one listed first in the gene's hit list: every hit of
+   the group listed before the best one scores strictly less (the deterministic tie rule; before the repair the
+   set-iteration order of identity-hashed objects decided) ... *)
+Theorem C13_filter_results_tie_rule : forall l b, best_of l = Some b ->
+  exists l1 l2, l = l1 ++ b :: l2 /\ (forall x, In x l1 -> f_sc x < f_sc b) /\ (forall x, In x l2 -> f_sc x <= f_sc b).
+Proof. exact fr_best_of_first_max. Qed.
+Print Assumptions C13_filter_results_tie_rule.
+
+(* ... and the live list `cdsresults`, from which earlier groups have removed their losers, gives the same best hit
+   as the gene's original list ... *)
+Theorem C13_filter_results_live_list : forall mine g done, fwf mine = true -> In g (fr_groups mine) ->
+  incl done (fr_groups mine) ->
+  best_of (hit_order (filter (fun r => negb (fr_bad mine done r)) mine) g) = best_of (hit_order mine g).
+Proof. exact C13_filter_live_list_proof. Qed.
+Print Assumptions C13_filter_results_live_list.
 
 (* ... and a gene with fewer than two profiles of the equivalence group is left alone *)
 Theorem C13_filter_results_untouched : forall eqg s mine, competing eqg mine = false ->
